@@ -904,6 +904,133 @@ func xidRequest(t reflect.Type, xid string) (interface{}, string) {
 	return v.Interface(), t.Name()
 }
 
+// integratedSend sends one xid-carrying request through the real SendAsyncRequest ->
+// selectSession and records on which of the open sessions it was written
+func integratedSend(h *History, reg []*regEntry, t reflect.Type, xid string) {
+	req, name := xidRequest(t, xid)
+	before := make([]int, len(reg))
+	for j, e := range reg {
+		before[j] = e.s.nWrites()
+	}
+	ev := Event{K: "select", Policy: "XID", Xid: hx(xid), Class: hutil.OutOK, Via: name}
+	class, detail := hutil.Guard(8*time.Second, func() error { return getty.GetGettyRemotingClient().SendAsyncRequest(req) })
+	if class != hutil.OutOK {
+		ev.Class = class
+		ev.Oracle = "SendAsyncRequest(" + name + ") " + class + ": " + firstLine(detail)
+	} else {
+		var got *fakeSession
+		for j, e := range reg {
+			if e.s.nWrites() > before[j] {
+				got = e.s
+			}
+		}
+		if got == nil {
+			ev.Nil = true
+			ev.Oracle = "the request was written on no session although open sessions are registered"
+		} else {
+			ev.Pick = got.id
+			parts := strings.Split(xid, ":")
+			want := parts[0] + ":" + parts[1]
+			has := false
+			for _, e := range reg {
+				if e.s.addr == want && !e.released && !e.s.IsClosed() {
+					has = true
+				}
+			}
+			if has && got.addr != want {
+				ev.Oracle = fmt.Sprintf("XID policy through SendAsyncRequest/selectSession: %s with xid %q was written on the session connected to %s although an open session to %s is registered", name, xid, got.addr, want)
+			}
+		}
+	}
+	if ev.Oracle != "" && h.Oracle == "" {
+		h.Oracle, h.BadAt = ev.Oracle, len(h.Events)
+	}
+	h.Events = append(h.Events, ev)
+}
+
+// runIntegratedLosses: two (three) coordinators; connections break the way getty reports it —
+// OnError followed by OnClose for the same session, the session closed by the peer or still
+// open — and are re-established; after every step requests carrying the xid of each coordinator
+// go through the real selectSession. Runs first in the process (the session manager's counters
+// start from zero), so a run replays as it is.
+func runIntegratedLosses(r *hutil.Rng) History {
+	initClient()
+	h := History{Hash: map[string]uint32{}, BadAt: -1, Feat: []string{"integrated", "integrated:losses"}, Index: -2}
+	types := xidMessageTypes()
+	if len(types) == 0 {
+		return h
+	}
+	handler := getty.GetGettyClientHandlerInstance()
+	coords := []string{"10.9.2.1:8091", "10.9.2.2:8091", "10.9.2.20:8091"}[:2+r.Intn(2)]
+	var reg []*regEntry
+	cur := map[string]*regEntry{}
+	nextID := 7001
+	sends := 0
+	open := func(a string) {
+		s := &fakeSession{id: nextID, addr: a, onWrite: answer}
+		nextID++
+		hutil.Guard(5*time.Second, func() error { return handler.OnOpen(s) })
+		time.Sleep(40 * time.Millisecond) // the RegisterTM goroutine of OnOpen (routed by the balancer)
+		e := &regEntry{s: s}
+		reg = append(reg, e)
+		cur[a] = e
+		h.Events = append(h.Events, Event{K: "open", ID: s.id, Addr: hx(a)})
+	}
+	lose := func(a string, twice, byPeer bool) {
+		e := cur[a]
+		if e == nil {
+			return
+		}
+		s := e.s
+		if byPeer {
+			s.Close()
+		}
+		hutil.Guard(5*time.Second, func() error {
+			handler.OnError(s, fmt.Errorf("read tcp %s: connection reset by peer", a))
+			if twice {
+				handler.OnClose(s)
+			}
+			return nil
+		})
+		e.released = true
+		cur[a] = nil
+		h.Events = append(h.Events, Event{K: "release", ID: s.id})
+	}
+	selects := func(n int) {
+		for i := 0; i < n; i++ {
+			var live []string
+			for _, a := range coords {
+				if cur[a] != nil {
+					live = append(live, a)
+				}
+			}
+			if len(live) == 0 {
+				return // nothing is open: a send would wait a minute for a session
+			}
+			a := live[r.Intn(len(live))]
+			integratedSend(&h, reg, types[sends%len(types)], a+":"+fmt.Sprint(r.Next()%1000000))
+			sends++
+		}
+	}
+	for _, a := range coords {
+		open(a)
+	}
+	selects(4)
+	// every coordinator connection breaks and comes back, several times over
+	for cycle := 0; cycle < 6; cycle++ {
+		for _, a := range coords {
+			lose(a, true, r.Chance(1, 2))
+			selects(4)
+			open(a)
+			selects(8)
+		}
+	}
+	for _, a := range coords {
+		lose(a, false, false)
+	}
+	return h
+}
+
 func runIntegrated(r *hutil.Rng, nsend int) History {
 	initClient()
 	h := History{Hash: map[string]uint32{}, BadAt: -1, Feat: []string{"integrated"}, Index: -1}
@@ -1056,6 +1183,7 @@ func Run(a map[string]string) {
 	// the client (session manager, resource caches) is process-global state: ONE long
 	// history per run, made of nc scripts joined by a connection loss
 	if nc > 0 {
+		res.Integrated = append(res.Integrated, runIntegratedLosses(root.Fork(905000)))
 		r := root.Fork(900000)
 		var script []string
 		for i := 0; i < nc; i++ {
